@@ -652,6 +652,10 @@ class Evaluator:
             m = self.repo.lookup_method(ci, name)
             if m is not None:
                 selfarg = None if m.kind == "staticmethod" else recv
+                unbound = isinstance(recv, Ref) and recv.kind == "class" and m.kind == "method"
+                if unbound:
+                    # plain function accessed through the class: no implicit first argument
+                    return self.invoke(m, None, args, kwargs, starkw, e, st, fr, unbound=True)
                 return self.invoke(m, selfarg, args, kwargs, starkw, e, st, fr)
         if isinstance(recv, Ref) and recv.kind == "module":
             r = self.repo.resolve_name(recv.obj, name)
@@ -859,7 +863,7 @@ class Evaluator:
         raise ValueError("symbolic")
 
     # ------------------------------------------------------------------ inlining
-    def invoke(self, fi: FuncInfo, selfarg, args, kwargs, starkw, e, st, fr, ctor=False):
+    def invoke(self, fi: FuncInfo, selfarg, args, kwargs, starkw, e, st, fr, ctor=False, unbound=False):
         """Call a repository function: inline it when the budget allows, else keep an opaque call term."""
         callterm = App("call", [Ref("func", fi)] + ([selfarg] if selfarg is not None else []) + list(args)
                        + self.kwterms(kwargs) + ([App("starkw", (starkw,))] if starkw is not None else []), e)
@@ -868,7 +872,7 @@ class Evaluator:
             return callterm
         if "abstractmethod" in fi.decorators:
             return callterm
-        binding = self.bind_params(fi, selfarg, args, kwargs, starkw)
+        binding = self.bind_params(fi, selfarg, args, kwargs, starkw, unbound=unbound)
         if binding is None:
             return callterm
         self_cls = None
@@ -941,12 +945,12 @@ class Evaluator:
     def _split_guard(self, g):
         return g, App("not", (g,))
 
-    def bind_params(self, fi: FuncInfo, selfarg, args, kwargs, starkw):
+    def bind_params(self, fi: FuncInfo, selfarg, args, kwargs, starkw, unbound=False):
         a = fi.node.args
         names = [x.arg for x in a.posonlyargs + a.args]
         env = {}
         pos = list(args)
-        if fi.kind in ("method", "classmethod", "property") and names:
+        if fi.kind in ("method", "classmethod", "property") and names and not unbound:
             first = names.pop(0)
             env[first] = selfarg if selfarg is not None else Sym("param:" + first)
         if any(isinstance(x, App) and x.op == "star" for x in pos):
@@ -1139,8 +1143,10 @@ class Evaluator:
         if fa is None and fb is None:
             return None, exits
         if fa is None:
+            fb.effects.append(App("eff:assume", (App("not", (g,), s.test),), s))
             return fb, exits
         if fb is None:
+            fa.effects.append(App("eff:assume", (g,), s))
             return fa, exits
         # merge
         merged = State(conds=st.conds)
